@@ -62,11 +62,14 @@ Theorem C03_logic_with_null_refuted :
 Proof. witness [VNull; Q2 5 1; VNull]. Qed.
 Print Assumptions C03_logic_with_null_refuted.
 
-(* maximum / minimum = max_horizontal / min_horizontal ignore nulls; Pandas propagates them *)
-Theorem C03_maximum_with_null_refuted :
-  differs (OExtend (OTable "d" ["a"; "b"]) [("x", EOp "maximum" [ECol "a"; ECol "b"])] false (mkwin [] [] [])) one_null [CMinMaxNull].
-Proof. witness [VNull; Q2 5 1; Q2 5 1]. Qed.
-Print Assumptions C03_maximum_with_null_refuted.
+(* regression example for repair 73dee51 (found by this check): maximum / minimum propagate a missing operand on Polars as
+   on Pandas -- the former witness of C03_maximum_with_null_refuted is now inside the guard and the two sides agree *)
+Example C03_maximum_with_null_agrees :
+  let p := OExtend (OTable "d" ["a"; "b"]) [("x", EOp "maximum" [ECol "a"; ECol "b"]); ("y", EOp "minimum" [ECol "b"; ECol "a"])] false (mkwin [] [] []) in
+  agree_guardb p one_null = true /\
+  plexec p one_null = Ok (mktable ["a"; "b"; "x"; "y"] [[VNull; Q2 5 1; VNull; VNull]]) /\
+  sem_gen fl_pandas p one_null = Some (mktable ["a"; "b"; "x"; "y"] [[VNull; Q2 5 1; VNull; VNull]]).
+Proof. cbv zeta. split; [vm_compute; reflexivity|split; vm_compute; reflexivity]. Qed.
 
 (* pandas.merge matches a null key with a null key; the Polars join never does *)
 Theorem C03_null_join_keys_refuted :
